@@ -119,8 +119,11 @@ func (g *gen) pick(ss []string) string { return ss[g.t.Choose(len(ss))] }
 
 func DefaultFeatures(t *tape.Tape) Features {
 	return Features{
-		Interfaces:    t.Bool(1, 2),
-		Unions:        t.Bool(1, 2),
+		// interfaces and unions over entity types hit open known findings of the planner
+		// (DESIGN.md sec. 9); they are drawn (to keep tapes stable) but switched off unless a
+		// scenario or a -sim.features override turns them on
+		Interfaces:    t.Bool(1, 2) && false,
+		Unions:        t.Bool(1, 2) && false,
 		ValueTypes:    t.Bool(2, 3),
 		Inputs:        t.Bool(1, 2),
 		Enums:         t.Bool(1, 2),
